@@ -15,12 +15,14 @@ import (
 	"encoding/hex"
 	"encoding/json"
 	"fmt"
+	"bufio"
 	"io"
 	"math"
 	"os"
 	"runtime/debug"
 	"sort"
 	"strings"
+	"syscall"
 
 	"github.com/gogpu/naga/zverif/fp"
 	"github.com/gogpu/naga/zverif/proto"
@@ -28,40 +30,95 @@ import (
 )
 
 func main() {
-	if len(os.Args) < 3 {
-		fmt.Fprintln(os.Stderr, "usage: worker run|describe <file|->")
-		os.Exit(2)
-	}
-	var data []byte
-	var err error
-	if os.Args[2] == "-" {
-		data, err = io.ReadAll(os.Stdin)
-	} else {
-		data, err = os.ReadFile(os.Args[2])
-	}
-	if err != nil {
-		fmt.Fprintln(os.Stderr, "worker:", err)
+	if len(os.Args) < 2 {
+		fmt.Fprintln(os.Stderr, "usage: worker run <file|-> [nsites] | serve [nsites] | describe <file|->")
 		os.Exit(2)
 	}
 	debug.SetGCPercent(400)
-	switch os.Args[1] {
-	case "run":
-		var sc proto.Scenario
-		if err := json.Unmarshal(data, &sc); err != nil {
-			fmt.Fprintln(os.Stderr, "worker: bad scenario:", err)
+	// address-space cap: a runaway allocation kills this process, not the box
+	var lim syscall.Rlimit
+	if syscall.Getrlimit(syscall.RLIMIT_AS, &lim) == nil {
+		lim.Cur = 12 << 30
+		if lim.Max != 0 && lim.Cur > lim.Max {
+			lim.Cur = lim.Max
+		}
+		syscall.Setrlimit(syscall.RLIMIT_AS, &lim)
+	}
+	processBaseline()
+	readArg := func(i int) []byte {
+		var data []byte
+		var err error
+		if len(os.Args) <= i || os.Args[i] == "-" {
+			data, err = io.ReadAll(os.Stdin)
+		} else {
+			data, err = os.ReadFile(os.Args[i])
+		}
+		if err != nil {
+			fmt.Fprintln(os.Stderr, "worker:", err)
 			os.Exit(2)
 		}
-		nSites := 0
-		if len(os.Args) > 3 {
-			fmt.Sscan(os.Args[3], &nSites)
+		return data
+	}
+	nSitesArg := func(i int) int {
+		n := 0
+		if len(os.Args) > i {
+			fmt.Sscan(os.Args[i], &n)
 		}
-		res := runScenario(&sc, nSites)
-		out, _ := json.Marshal(res)
-		os.Stdout.Write(out)
-		os.Stdout.Write([]byte("\n"))
+		return n
+	}
+	switch os.Args[1] {
+	case "run":
+		// a session: one scenario or a list of scenarios executed in order in
+		// this one process; one result line per scenario
+		data := readArg(2)
+		var session []proto.Scenario
+		if err := json.Unmarshal(data, &session); err != nil {
+			var sc proto.Scenario
+			if err2 := json.Unmarshal(data, &sc); err2 != nil {
+				fmt.Fprintln(os.Stderr, "worker: bad scenario:", err2)
+				os.Exit(2)
+			}
+			session = []proto.Scenario{sc}
+		}
+		for i := range session {
+			res := runScenario(&session[i], nSitesArg(3))
+			out, _ := json.Marshal(res)
+			os.Stdout.Write(append(out, '\n'))
+		}
+	case "serve":
+		// persistent mode: one scenario per input line, one result per output
+		// line. The process retires itself as soon as package-level state of
+		// the compiler differs from what it was at process start, so that no
+		// later scenario can observe a non-pristine process.
+		in := bufio.NewReaderSize(os.Stdin, 1<<20)
+		out := bufio.NewWriter(os.Stdout)
+		n := nSitesArg(2)
+		for {
+			line, err := in.ReadBytes('\n')
+			if len(line) > 1 {
+				var sc proto.Scenario
+				if jerr := json.Unmarshal(line, &sc); jerr != nil {
+					fmt.Fprintln(os.Stderr, "worker: bad scenario:", jerr)
+					os.Exit(2)
+				}
+				res := runScenario(&sc, n)
+				if res.Deadlock || res.GlobalsDirty || res.Fatal != "" {
+					res.Retire = true
+				}
+				js, _ := json.Marshal(res)
+				out.Write(append(js, '\n'))
+				out.Flush()
+				if res.Retire {
+					return
+				}
+			}
+			if err != nil {
+				return
+			}
+		}
 	case "describe":
 		var srcs []proto.Source
-		if err := json.Unmarshal(data, &srcs); err != nil {
+		if err := json.Unmarshal(readArg(2), &srcs); err != nil {
 			fmt.Fprintln(os.Stderr, "worker: bad sources:", err)
 			os.Exit(2)
 		}
@@ -71,11 +128,25 @@ func main() {
 			infos = append(infos, describe(s))
 		}
 		out, _ := json.Marshal(infos)
-		os.Stdout.Write(out)
-		os.Stdout.Write([]byte("\n"))
+		os.Stdout.Write(append(out, '\n'))
 	default:
 		fmt.Fprintln(os.Stderr, "worker: unknown mode", os.Args[1])
 		os.Exit(2)
+	}
+}
+
+// Package-level state of the compiler as it was when this process started.
+var (
+	procGlobBase []uint64
+	procGlobFlat [][]fp.Entry
+	globalsDirty bool
+)
+
+func processBaseline() {
+	sort.SliceStable(simrt.Globals, func(i, j int) bool { return simrt.Globals[i].Name < simrt.Globals[j].Name })
+	for _, g := range simrt.Globals {
+		procGlobBase = append(procGlobBase, fp.Hash(g.Ptr))
+		procGlobFlat = append(procGlobFlat, fp.Flatten(g.Ptr))
 	}
 }
 
@@ -98,6 +169,7 @@ type object struct {
 	busyBy   int  // >=0: task running a legitimate in-place mutator on it
 	dirty    bool // currently differs from baseline (already reported)
 	dirtyIdx int  // index of the violation that reported it
+	lastHash uint64 // fingerprint at the last check while dirty
 }
 
 type opState struct {
@@ -117,11 +189,33 @@ type world struct {
 	ops      [][]*opState
 	backends []any
 	viol     []proto.Violation
-	globBase []uint64
-	globFlat [][]fp.Entry
 	stats    proto.Stats
 	log      strings.Builder
 	hlslPrev map[int]any // per task: previous *hlsl.Options (ReuseOptions)
+	// (task, op) pairs that ran since the last invariant evaluation
+	sinceMod, sinceGlob []proto.Ref
+}
+
+func addRef(l []proto.Ref, t, op int) []proto.Ref {
+	for _, r := range l {
+		if r.Task == t && r.Op == op {
+			return l
+		}
+	}
+	return append(l, proto.Ref{Task: t, Op: op})
+}
+
+func (w *world) ran(t, op int) {
+	w.sinceMod = addRef(w.sinceMod, t, op)
+	w.sinceGlob = addRef(w.sinceGlob, t, op)
+}
+
+// culprit names who can have altered an object since the last clean check.
+func culprit(since []proto.Ref, t, op int, kind string) (int, int, string, []proto.Ref) {
+	if len(since) <= 1 {
+		return t, op, kind, nil
+	}
+	return t, op, "ambiguous", append([]proto.Ref(nil), since...)
 }
 
 const maxViolations = 24
@@ -164,13 +258,17 @@ func (w *world) checkModules(t, op int, kind string, midOp bool) {
 			}
 			continue
 		}
-		if o.dirty {
+		if o.dirty && h == o.lastHash {
 			continue
 		}
+		// first alteration, or altered again (possibly by somebody else)
+		// while still differing from its baseline
+		o.lastHash = h
 		paths, details := fp.Diff(o.flat, fp.Flatten(o.val), 12)
 		o.dirty = true
+		ct, co, ck, sus := culprit(w.sinceMod, t, op, kind)
 		o.dirtyIdx = w.addViolation(proto.Violation{
-			Class: "I-MUT", Task: t, Op: op, Kind: kind, Object: o.label,
+			Class: "I-MUT", Task: ct, Op: co, Kind: ck, Object: o.label, ObjID: o.id, Suspects: sus,
 			Paths: paths, Detail: strings.Join(details, "; "), AtStep: simrt.Steps, MidOp: midOp,
 		})
 	}
@@ -179,20 +277,22 @@ func (w *world) checkModules(t, op int, kind string, midOp bool) {
 func (w *world) checkGlobals(t, op int, kind string, midOp bool) {
 	for i, g := range simrt.Globals {
 		h := fp.Hash(g.Ptr)
-		if h == w.globBase[i] {
+		if h == procGlobBase[i] {
 			continue
 		}
-		paths, details := fp.Diff(w.globFlat[i], fp.Flatten(g.Ptr), 6)
+		globalsDirty = true
+		paths, details := fp.Diff(procGlobFlat[i], fp.Flatten(g.Ptr), 6)
 		for j := range paths {
 			paths[j] = g.Name + paths[j]
 		}
+		ct, co, ck, sus := culprit(w.sinceGlob, t, op, kind)
 		w.addViolation(proto.Violation{
-			Class: "I-GLOBAL", Task: t, Op: op, Kind: kind, Object: "global " + g.Name,
+			Class: "I-GLOBAL", Task: ct, Op: co, Kind: ck, Suspects: sus, Object: "package-level variable " + g.Name,
 			Paths: paths, Detail: strings.Join(details, "; "), AtStep: simrt.Steps, MidOp: midOp,
 		})
 		// re-baseline so that one write is reported once
-		w.globBase[i] = h
-		w.globFlat[i] = fp.Flatten(g.Ptr)
+		procGlobBase[i] = h
+		procGlobFlat[i] = fp.Flatten(g.Ptr)
 	}
 }
 
@@ -229,6 +329,7 @@ func runScenario(sc *proto.Scenario, nSites int) (res *proto.Result) {
 	if nSites <= 0 {
 		nSites = 4096
 	}
+	simrt.ResetRun()
 	simrt.Configure(sc.Perm, nSites)
 	if sc.PoolSeed != 0 {
 		pr := &rng{s: sc.PoolSeed}
@@ -244,12 +345,6 @@ func runScenario(sc *proto.Scenario, nSites int) (res *proto.Result) {
 		for oi := range ops {
 			w.ops[ti][oi] = &opState{modObj: -1}
 		}
-	}
-	// package-level state baseline
-	sort.SliceStable(simrt.Globals, func(i, j int) bool { return simrt.Globals[i].Name < simrt.Globals[j].Name })
-	for _, g := range simrt.Globals {
-		w.globBase = append(w.globBase, fp.Hash(g.Ptr))
-		w.globFlat = append(w.globFlat, fp.Flatten(g.Ptr))
 	}
 
 	sched := simrt.NewSched()
@@ -324,6 +419,10 @@ func runScenario(sc *proto.Scenario, nSites int) (res *proto.Result) {
 	pairSeen := map[string]bool{}
 	var switchLog []byte
 	stallDone := false
+	stride, midChecks := sc.Monitor, 0
+	if stride < 1 {
+		stride = 1
+	}
 
 	for {
 		// pick
@@ -451,11 +550,25 @@ func runScenario(sc *proto.Scenario, nSites int) (res *proto.Result) {
 		res.Schedule = append(res.Schedule, sl)
 		sliceNo++
 		mid := reason == simrt.Preempted || reason == simrt.Blocked
-		// invariants: always at operation boundaries; inside operations
-		// according to the run's monitor density
-		if !mid || sc.Monitor == 1 || (sc.Monitor > 1 && sliceNo%sc.Monitor == 0) {
+		// invariants: always at operation boundaries; inside operations at
+		// the run's monitor density, thinning out deterministically on very
+		// long runs (the stride doubles after every 128 mid-operation checks)
+		w.ran(pick, opIdx)
+		doCheck := !mid
+		if mid && sc.Monitor > 0 && sliceNo%stride == 0 {
+			doCheck = true
+			midChecks++
+			if sc.Monitor > 1 && midChecks%128 == 0 {
+				stride *= 2
+			}
+		}
+		if doCheck {
 			w.checkModules(pick, opIdx, kind, mid)
-			w.checkGlobals(pick, opIdx, kind, mid)
+			w.sinceMod = w.sinceMod[:0]
+			if !mid || w.stats.MonitorRuns%16 == 0 || sc.Monitor == 1 {
+				w.checkGlobals(pick, opIdx, kind, mid)
+				w.sinceGlob = w.sinceGlob[:0]
+			}
 		}
 		if len(res.Schedule) > 2_000_000 {
 			res.Fatal = "schedule too long"
@@ -491,6 +604,7 @@ func runScenario(sc *proto.Scenario, nSites int) (res *proto.Result) {
 	w.stats.SwitchHash = hashBytes(switchLog)
 	res.Stats = w.stats
 	res.Violations = w.viol
+	res.GlobalsDirty = globalsDirty
 	// log hash: schedule + results (+violations) -- what the twin run must reproduce
 	lh := sha256.New()
 	enc := json.NewEncoder(lh)
